@@ -175,6 +175,32 @@ def uclchem_upper(v: List[int]) -> bool:
         return _agree(sp, ec, q, bool(pref), f"{r(s1)}{c1}{r(s2)}{ch}") and sp.name == renamed
 
 
+def upper_case_replacement_negative_charges(v: List[int]) -> bool:
+    """
+    pre: len(v) == 3 and 0 <= v[0] < 11 and 0 <= v[1] < 11 and 0 <= v[2] < 8
+    post: _ == True
+    """
+    # the replacement table rebuilds every name: anions keep their trailing signs (and stay different from the neutral)
+    a, b, c = prelude.concrete(v)
+    with prelude.NoTracing():
+        _setup(UCL, UCL_PSEUDO, UCL_REPL)
+        real = [e for e in UCL if e != "E"]
+        s1, s2 = real[a % 10], (real + [""])[b]
+        c1, ch = COUNTS[c % 4], ["-", "--"][(c // 4) % 2]
+        pref = "#" if (a + b) % 3 == 0 else ""
+        name = f"{pref}{s1}{c1}{s2}{ch}"
+        r = lambda s_: UCL_REPL.get(s_, s_)
+        ec, q = _expected([(r(s1), c1), (r(s2), "")], ch)
+        sp = Species(name)
+        renamed = f"{pref}{r(s1)}{c1}{r(s2)}{ch}"
+        neutral = Species(f"{pref}{s1}{c1}{s2}")
+        if a == 10:
+            el = Species("E-")
+            if not (bool(el.is_electron) and el.charge == -1 and el.name in ("e-", "E-")):
+                return False
+        return _agree(sp, ec, q, bool(pref), f"{r(s1)}{c1}{r(s2)}{ch}") and sp.name == renamed and sp != neutral and neutral.charge == 0
+
+
 def upper_case_elements_with_G_prefix(v: List[int]) -> bool:
     """
     pre: len(v) == 3 and all(0 <= x < 11 for x in v)
